@@ -19,6 +19,7 @@ Definition holds_C04_image (gfx map_ gff music sfx text : list Z) (version : Z)
    Regions and version identical; code identical up to the reader's normalisation: CR -> space, and
    possibly one final newline *)
 Definition code_equiv (text code : list Z) : bool :=
+  zlist_eqb code text || zlist_eqb code (text ++ [10]) ||
   zlist_eqb code (cr_to_space text) || zlist_eqb code (cr_to_space text ++ [10]).
 
 Definition holds_C04_readback (gfx map_ gff music sfx text : list Z) (version : Z)
